@@ -285,12 +285,57 @@ def raw_worker(task):
     return n, viols, NL, kind
 
 
+def many_listeners(N):
+    """N subscribers on one type (N far beyond the BFS): every removal form,
+    re-subscription in both orders, every single position, duplicates and
+    listeners that unsubscribe themselves while being notified"""
+    World = make_world(N)
+    NT = 2
+    add_all = [(("add", 0, l), {}) for l in range(N)]
+    fire = (("fire", 0, "x"), {})
+    hists = [add_all + [fire], add_all + add_all + [fire]]
+    forms = [[(("ra", None, None), {})], [(("ra", 0, None), {})],
+             [(("rem", 0, l), {}) for l in range(N)],
+             [(("rem", 0, l), {}) for l in reversed(range(N))],
+             [(("ra", None, l), {}) for l in range(N)],
+             [(("ra", 0, l), {}) for l in range(N)]]
+    for f in forms:
+        for order in (list(range(N)), list(reversed(range(N)))):
+            again = [(("add", 0, l), {}) for l in order]
+            hists.append(add_all + f + [fire] + again + [fire])
+            hists.append(add_all + f + again + again + [fire])
+    for j in range(N):
+        for rm in (("rem", 0, j), ("ra", None, j), ("ra", 0, j)):
+            hists.append(add_all + [(rm, {}), fire, (("add", 0, j), {}),
+                                    fire, (("add", 1, j), {}),
+                                    (("fire", 1, "y"), {})])
+        # listener j leaves / brings in the last one / fires while notified
+        for act in (("rem", 0, j), ("rem", 0, N - 1), ("ra", 0, None),
+                    ("fire", 1, "n")):
+            hists.append(add_all + [(("add", 1, (j + 1) % N), {}),
+                                    (("fire", 0, "x"), {j: act}), fire])
+    n = 0
+    viols = []
+    for h in hists:
+        for i, (op, sc) in enumerate(h):
+            if op[0] != "fire":
+                continue
+            n += 1
+            bad, _ = check_transition(World, NT, h[:i], h[i])
+            if bad:
+                if len(viols) < 10:
+                    viols.append((h[:i], h[i], bad[0]))
+                break
+    return N, n, viols
+
+
 # ---------------------------------------------------------------- payloads
 def payload_table():
     from pydsol.core.pubsub import (EventType, Event, TimedEvent,
                                     EventProducer, EventListener, EventError)
     decls = [None, {}, {"a": int}, {"a": int, "b": str}, {"x": float},
-             {"a": bool}]
+             {"a": bool}, {"tag": object, "count": int}, {"n": type(None)},
+             {"a": object}, {"a": object, "b": object}]
     import collections as _c
 
     class Lenient(dict):
@@ -304,7 +349,10 @@ def payload_table():
                 None, "abc", 5, [1], (1, 2), {}, {"a": 1}, {"a": "s"},
                 {"a": 1, "b": "t"}, {"a": 1, "b": 2}, {"a": 1, "c": "t"},
                 {"a": 1, "b": "t", "c": 0}, {"a": None}, {"x": 1.5},
-                {"x": 1}, {"a": True}, {"b": "t"}, {"a": 1.0}]
+                {"x": 1}, {"a": True}, {"b": "t"}, {"a": 1.0},
+                {"count": 1, "zzz": 2}, {"tag": "t", "count": 1},
+                {"tag": None, "count": 1}, {"n": None}, {"m": None},
+                {"zzz": 0}, {"b": 0, "zzz": 1}, {"a": 0, "zzz": 1}]
     stamps = [0, 2.5, -1, "now", None, [1]]
     ets = [EventType("C08_P%d_%d" % (i, id(decls) % 997), d)
            for i, d in enumerate(decls)]
@@ -518,6 +566,23 @@ def run(ctx):
     ctx.part("raw (un)subscribe sequences without state merging",
              sequences=nraw, depth=depth)
     trans += nraw
+    Ns = list(range(1, 25)) + [32, 33, 40] if quick else list(range(1, 66))
+    nmany = 0
+    for N, n_, viols in common.pimap(many_listeners, list(reversed(Ns))):
+        nmany += n_
+        for h, step, b in viols:
+            rep = {"NT": 2, "NL": N, "hist": h, "step": step,
+                   "kind": "distinct"}
+            ctx.violation("C08:many:%s:%s" % (b[0], step[0][0]),
+                          "producer with %d listeners: after %s, step %s: %s"
+                          % (N, [o for o, s_ in h][-6:], step,
+                             str(b)[:300]), rep, rank=N)
+    ctx.part("many subscribers on one type, N in %s..%s: every removal form, "
+             "re-subscription in both orders, every single position, "
+             "duplicates, self-unsubscription during notify" % (Ns[0],
+                                                                 Ns[-1]),
+             fires_checked=nmany)
+    trans += nmany
     n, bad = payload_table()
     ctx.part("payload/metadata/timestamp table", cases=n,
              violations=len(bad))
